@@ -18,7 +18,8 @@
 package vanguard
 
 // frames (macros)
-//@ define LIB = $map|, $elems|, $buf|, $connerr|
+//@ define LIB = $map|, $elems|, $connerr|
+//@ define RWENDB = #RWEND, $buf|len
 //@ define RWEND = $vanguard.responseWriter.headersFlushed, $vanguard.responseWriter.buf, $vanguard.responseWriter.err, $vanguard.responseWriter.endWritten, $vanguard.responseWriter.respMeta, $vanguard.responseMeta.end, $vanguard.responseEnd., #LIB
 
 // ------------------------------------------------------------------------------------------------
@@ -139,7 +140,7 @@ package vanguard
 
 // validRW: structural well-formedness. The delegate is the server's own writer, not another
 // vanguard responseWriter (nested transcoders are outside the verified configuration).
-//@ pred validRW(w) = w != nil && validOp(w.op) && w.delegate != nil && extern(w.delegate) && w.flusher != nil && w.contentLen >= -1
+//@ pred validRW(w) = w != nil && validOp(w.op) && w.delegate != nil && extern(w.delegate) && !typeIs(w.delegate, *bytes.Buffer) && w.flusher != nil && w.contentLen >= -1
 //@ |  && (typeIs(w.flusher, flusherNoError) ==> unbox(w.flusher, flusherNoError).f != nil)
 // rwInv: the state machine invariant, established by handle() and preserved by every method.
 //@ pred rwInv(w) = validRW(w)
@@ -162,31 +163,31 @@ package vanguard
 //@   ensures[C03] w.endWritten && ends == 1
 //@   ensures w.headersFlushed == old(w.headersFlushed) && w.err == old(w.err) && w.buf == old(w.buf) && w.respMeta == old(w.respMeta)
 //@   ensures w.headersWritten == old(w.headersWritten) && w.w == old(w.w) && validRW(w)
-//@   modifies w.endWritten, $map|, $elems|, $buf|, $connerr|
+//@   modifies w.endWritten, #LIB
 
 // encodeEnd of every client protocol: writes only to the given (external) writer, header maps
 // and pooled buffers; never touches the response state machine.
 //@ pred endCall(op, end, writer) = op != nil && op.bufferPool != nil && validConf(op.methodConf) && op.client.codec != nil
-//@ |  && end != nil && writer != nil && extern(writer)
+//@ |  && end != nil && writer != nil && extern(writer) && !typeIs(writer, *bytes.Buffer)
 
 //@ func (grpcClientProtocol).encodeEnd
 //@   requires end != nil
-//@   modifies $map|, $elems|, $buf|, $connerr|
+//@   modifies #LIB
 //@ func (grpcWebClientProtocol).encodeEnd
 //@   requires endCall(op, end, writer)
-//@   modifies $map|, $elems|, $buf|, $connerr|
+//@   modifies #LIB
 //@ func (connectUnaryGetClientProtocol).encodeEnd
 //@   requires endCall(op, end, writer)
-//@   modifies $map|, $elems|, $buf|, $connerr|
+//@   modifies #LIB
 //@ func (connectUnaryPostClientProtocol).encodeEnd
 //@   requires endCall(op, end, writer)
-//@   modifies $map|, $elems|, $buf|, $connerr|
+//@   modifies #LIB
 //@ func (connectStreamClientProtocol).encodeEnd
 //@   requires endCall(op, end, writer)
-//@   modifies $map|, $elems|, $buf|, $connerr|
+//@   modifies #LIB
 //@ func (restClientProtocol).encodeEnd
 //@   requires endCall(op, end, writer)
-//@   modifies $map|, $elems|, $buf|, $connerr|
+//@   modifies #LIB
 
 //@ axiom errFinalDataAlreadyWritten != nil
 //@ axiom context.Canceled != nil
@@ -204,20 +205,20 @@ package vanguard
 //@   ensures[C03] !old(w.headersFlushed) ==> w.endWritten == (w.respMeta.end != nil)
 //@   ensures[C03] w.endWritten ==> w.err != nil
 //@   ensures validRW(w) && w.respMeta == old(w.respMeta) && w.w == old(w.w) && w.headersWritten == old(w.headersWritten)
-//@   modifies w.headersFlushed, w.buf, w.err, w.endWritten, $map|, $elems|, $buf|, $connerr|
+//@   modifies w.headersFlushed, w.buf, w.err, w.endWritten, owned(w.buf), blen(w.buf), #LIB
 
 //@ func (*responseWriter).reportEnd
 //@   requires rwInv(w) && end != nil
 //@   ensures[C03,C09] rwInv(w) && w.endWritten
 //@   ensures[C03] old(w.endWritten) ==> w.err == old(w.err) && w.headersFlushed == old(w.headersFlushed) && w.respMeta == old(w.respMeta) && w.buf == old(w.buf)
 //@   ensures w.w == old(w.w) && w.headersWritten == old(w.headersWritten)
-//@   modifies w.headersFlushed, w.buf, w.err, w.endWritten, w.respMeta, end.trailers, w.respMeta.end, $map|, $elems|, $buf|, $connerr|
+//@   modifies w.headersFlushed, w.buf, w.err, w.endWritten, w.respMeta, end.trailers, w.respMeta.end, owned(w.buf), blen(w.buf), #LIB
 
 //@ func (*responseWriter).reportError
 //@   requires rwInv(w)
 //@   ensures[C03,C09] rwInv(w) && w.endWritten
 //@   ensures w.w == old(w.w) && w.headersWritten == old(w.headersWritten)
-//@   modifies w.headersFlushed, w.buf, w.err, w.endWritten, w.respMeta, $vanguard.responseMeta.end, $vanguard.responseEnd., $map|, $elems|, $buf|, $connerr|
+//@   modifies w.headersFlushed, w.buf, w.err, w.endWritten, w.respMeta, $vanguard.responseMeta.end, $vanguard.responseEnd., owned(w.buf), blen(w.buf), #LIB
 
 // ------------------------------------------------------------------------------------------------
 // C10 / C08: bounded writers
@@ -225,12 +226,13 @@ package vanguard
 //@ func (*limitWriter).Write
 //@   preserves l != nil && l.buf != nil && rwInv(l.rw)
 //@   stable l.rw.endWritten
+//@   stable l.rw.respMeta != nil
 //@   ensures[C10,C08] old(blen(l.buf)) + len(data) > l.limit ==> n == 0 && err != nil && l.rw.endWritten
 //@   ensures[C10,C08] old(blen(l.buf)) + len(data) <= l.limit ==> n == len(data) && err == nil && blen(l.buf) == old(blen(l.buf)) + len(data)
 //@   ensures[C10] old(blen(l.buf)) + len(data) <= l.limit ==> l.rw.endWritten == old(l.rw.endWritten)
 //@   ensures l.buf == old(l.buf) && l.rw == old(l.rw) && l.limit == old(l.limit)
 //@   ensures l.rw.w == old(l.rw.w) && l.rw.headersWritten == old(l.rw.headersWritten) && (old(l.rw.endWritten) ==> l.rw.endWritten)
-//@   modifies #RWEND
+//@   modifies blen(l.buf), blen(l.rw.buf), owned(l.rw.buf), #RWEND
 
 //@ func (*errorWriter).Write
 //@   requires e != nil && rwInv(e.rw)
@@ -264,7 +266,7 @@ package vanguard
 //@   ensures[C08] 0 <= r0 && r0 <= len(data) && (r1 == nil ==> r0 == len(data))
 //@   ensures[C08] old(w.writingEnvelope) ==> r0 == len(data) && r1 == nil
 //@   ensures validEW(w) && w.rw == old(w.rw) && (old(w.rw.endWritten) ==> w.rw.endWritten)
-//@   modifies w.env, #RWEND
+//@   modifies w.env, owned(w.rw.buf), #RWENDB
 
 //@ func (*envelopingWriter).maybeInit
 //@   requires validEW(w) && (!w.initialized ==> w.err == nil && w.current == nil && !w.writingEnvelope && !w.mustReleaseCurrent && !w.currentIsTrailer)
@@ -274,7 +276,7 @@ package vanguard
 //@   ensures[C03] !old(w.initialized) && w.rw.op.serverEnveloper == nil && w.rw.op.clientEnveloper != nil && w.rw.contentLen != -1 && w.err == nil ==> w.remainingBytes == w.rw.contentLen
 //@   ensures[C10,C03] !old(w.initialized) && w.rw.op.serverEnveloper == nil && w.rw.op.clientEnveloper != nil && w.rw.contentLen > limitOf(w.rw.op) ==> w.err != nil && w.rw.endWritten
 //@   ensures old(w.rw.endWritten) ==> w.rw.endWritten
-//@   modifies w.initialized, w.writingEnvelope, w.remainingBytes, w.current, w.mustReleaseCurrent, w.err, $vanguard.limitWriter., $map|, $elems|, $buf|, $connerr|
+//@   modifies w.initialized, w.writingEnvelope, w.remainingBytes, w.current, w.mustReleaseCurrent, w.err, $vanguard.limitWriter., $buf|owned, #RWENDB
 
 //@ func (*envelopingWriter).handleEnvelopeWritten
 //@   requires validEW(w) && relInv(w)
@@ -287,7 +289,7 @@ package vanguard
 //@   ensures w.currentIsTrailer ==> w.rw.op.serverEnveloper != nil
 //@   ensures err != nil ==> w.current == old(w.current) && w.mustReleaseCurrent == old(w.mustReleaseCurrent) && w.remainingBytes == old(w.remainingBytes) && w.currentIsTrailer == old(w.currentIsTrailer)
 //@   ensures relInv(w) && (err == nil && !w.currentIsTrailer ==> !w.mustReleaseCurrent)
-//@   modifies w.writingEnvelope, w.current, w.mustReleaseCurrent, w.currentIsTrailer, w.trailerIsCompressed, w.remainingBytes, w.err, #RWEND
+//@   modifies w.writingEnvelope, w.current, w.mustReleaseCurrent, w.currentIsTrailer, w.trailerIsCompressed, w.remainingBytes, w.err, $buf|owned, #RWENDB
 
 //@ func (*envelopingWriter).handleTrailer
 //@   requires validEW(w) && relInv(w)
@@ -296,7 +298,7 @@ package vanguard
 //@   ensures[C09,C03] err == nil ==> w.rw.endWritten && w.err != nil
 //@   ensures validEW(w) && w.rw == old(w.rw) && w.initialized && (old(w.rw.endWritten) ==> w.rw.endWritten)
 //@   ensures relInv(w)
-//@   modifies w.mustReleaseCurrent, w.err, #RWEND
+//@   modifies w.mustReleaseCurrent, w.err, $buf|owned, #RWENDB
 
 //@ func (*envelopingWriter).Write
 //@   requires ewInv(w) && (!w.initialized ==> w.err == nil && w.current == nil && !w.writingEnvelope && !w.mustReleaseCurrent && !w.currentIsTrailer)
@@ -312,3 +314,141 @@ package vanguard
 //@   ensures[C09] r0 == nil ==> w.err != nil && w.current == nil
 //@   ensures rwInv(w.rw) && w.rw == old(w.rw) && (old(w.rw.endWritten) ==> w.rw.endWritten)
 //@   ensures w.rw.w == old(w.rw.w) && w.rw.headersWritten == old(w.rw.headersWritten)
+
+// ------------------------------------------------------------------------------------------------
+// C01 / C09 / C14: the message pipeline (stages: 0 empty, 1 read, 2 decoded, 3 send)
+
+//@ pred validMsg(m) = m != nil && 0 <= m.stage && m.stage <= 3 && (m.stage != 0 ==> m.buf != nil)
+//@ pred ownMsg(m) = m.buf != nil ==> owned(m.buf)
+//@ pred prepOK(op) = (op.clientReqNeedsPrep || op.clientRespNeedsPrep ==> op.clientPreparer != nil) && (op.serverReqNeedsPrep || op.serverRespNeedsPrep ==> op.serverPreparer != nil)
+//@ |  && op.writer != nil && (typeIs(op.writer, *responseWriter) ==> validRW(unbox(op.writer, *responseWriter)))
+
+//@ func (*message).decompress
+//@   requires m != nil && m.buf != nil && validOp(op)
+//@   requires[C14] owned(m.buf)
+//@   ensures[C14] owned(m.buf) && (m.buf != old(m.buf) ==> !owned(old(m.buf)) && !wasOwned(m.buf))
+//@   atcall[C01] (*compressionPool).decompress: arg(0) == ite(m.isRequest, op.client.reqCompression, op.client.respCompression) && arg(2) == m.buf
+//@   ensures[C09] m.buf != nil && m.stage == old(m.stage)
+//@   ensures[C09] err != nil ==> m.buf == old(m.buf)
+//@   modifies m.buf, owned(m.buf), blen(m.buf), #LIB
+
+//@ func (*message).compress
+//@   requires m != nil && m.buf != nil && validOp(op)
+//@   requires[C14] owned(m.buf)
+//@   ensures[C14] owned(m.buf) && (m.buf != old(m.buf) ==> !owned(old(m.buf)) && !wasOwned(m.buf))
+//@   atcall[C01] (*compressionPool).compress: arg(0) == ite(m.isRequest, op.server.reqCompression, op.server.respCompression) && arg(2) == m.buf
+//@   ensures[C09] m.buf != nil && m.stage == old(m.stage)
+//@   ensures[C09] err != nil ==> m.buf == old(m.buf)
+//@   modifies m.buf, owned(m.buf), blen(m.buf), #LIB
+
+//@ func (*message).decode
+//@   requires m != nil && m.buf != nil && validOp(op) && prepOK(op)
+//@   requires[C14] owned(m.buf)
+//@   atcall[C01] (connectrpc.com/vanguard.Codec).Unmarshal: arg(0) == ite(m.isRequest, op.client.codec, op.server.codec)
+//@   ensures m.buf == old(m.buf) && m.stage == old(m.stage)
+//@   modifies #LIB
+
+//@ func (*message).encode
+//@   requires m != nil && m.buf != nil && validOp(op) && prepOK(op)
+//@   requires[C14] owned(m.buf)
+//@   ensures[C14] owned(m.buf) && (m.buf != old(m.buf) ==> !owned(old(m.buf)) && !wasOwned(m.buf))
+//@   atcall[C01] (connectrpc.com/vanguard.Codec).MarshalAppend: arg(0) == ite(m.isRequest, op.server.codec, op.client.codec)
+//@   ensures[C09] m.buf != nil && m.stage == old(m.stage)
+//@   ensures[C09] err != nil ==> m.buf == old(m.buf)
+//@   modifies m.buf, owned(m.buf), blen(m.buf), #LIB
+
+//@ func (*message).advanceToStage
+//@   requires validMsg(m) && validOp(op) && prepOK(op) && 0 <= newStage && newStage <= 3
+//@   requires[C14] ownMsg(m)
+//@   ensures[C14] ownMsg(m) && (m.buf != old(m.buf) ==> !wasOwned(m.buf))
+//@   track dec = (*message).decompress
+//@   track comp = (*message).compress
+//@   track decd = (*message).decode
+//@   track enc = (*message).encode
+//@   track rec = (*message).advanceToStage
+//@   atcall[C01] (*message).advanceToStage: (arg(2) == 2 && rec == 1 && m.stage == 1) || (arg(2) == 3 && rec == 2 && m.stage == 2)
+//@   ensures[C01,C09] old(m.stage) == 0 || old(m.stage) > newStage ==> err != nil
+//@   ensures[C01] err == nil ==> m.stage == newStage
+//@   ensures[C09] err != nil ==> m.stage >= old(m.stage) && (m.stage < 3 || old(m.stage) == 3)
+//@   ensures[C01] old(m.stage) == 1 && newStage == 3 && m.sameCodec && (!m.wasCompressed || m.sameCompression) ==> err == nil && dec + comp + decd + enc + rec == 0 && m.buf == old(m.buf)
+//@   ensures[C01] old(m.stage) == 1 && newStage == 3 && m.sameCodec && m.wasCompressed && !m.sameCompression && err == nil ==> dec == 1 && comp == 1 && decd + enc + rec == 0
+//@   ensures[C01] old(m.stage) == 1 && newStage == 3 && !m.sameCodec && err == nil ==> rec == 2 && dec + comp + decd + enc == 0
+//@   ensures[C01] old(m.stage) == 1 && newStage == 2 && err == nil ==> dec == ite(m.wasCompressed, 1, 0) && decd == 1 && enc + comp + rec == 0
+//@   ensures[C01] old(m.stage) == 2 && newStage == 3 && err == nil ==> enc == ite(m.sameCodec, 0, 1) && comp == ite(m.wasCompressed, 1, 0) && dec + decd + rec == 0
+//@   ensures validMsg(m) && m.sameCodec == old(m.sameCodec) && m.wasCompressed == old(m.wasCompressed)
+//@   modifies m.stage, m.buf, owned(m.buf), blen(m.buf), #LIB
+
+// ------------------------------------------------------------------------------------------------
+// C08 / C09 / C10 / C16 / C03: transformingWriter
+
+//@ pred validTW(w) = w != nil && rwInv(w.rw) && prepOK(w.rw.op) && w.msg != nil && w.w != nil && sinkOK(w.w, w.rw) && !typeIs(w.w, *bytes.Buffer)
+//@ |  && (w.rw.respMeta != nil || w.rw.op.serverEnveloper != nil)
+//@ pred twInv(w) = validTW(w) && (w.err == nil && w.buffer != nil ==>
+//@ |    w.buffer == w.msg.buf && owned(w.buffer)
+//@ | && (w.expectingBytes == -1 || (w.expectingBytes >= 0 && blen(w.buffer) <= w.expectingBytes && w.rw.op.serverEnveloper != nil))
+//@ | && (w.writingEnvelope ==> w.expectingBytes == 5 && blen(w.buffer) < 5)
+//@ | && (w.expectingBytes == -1 ==> w.rw.op.serverEnveloper == nil))
+
+//@ func (*transformingWriter).reset
+//@   opt inline
+//@ func (*message).reset
+//@   opt inline
+
+//@ func (*transformingWriter).flushMessage
+//@   requires validTW(w) && w.buffer != nil && w.buffer == w.msg.buf && w.err == nil && owned(w.buffer)
+//@   requires w.latestEnvelope.trailer ==> w.rw.op.serverEnveloper != nil
+//@   requires[C03] !w.rw.endWritten
+//@   track flushed = (*responseWriter).flushMessage
+//@   atcall[C03] (io.Writer).Write: !w.rw.endWritten
+//@   ensures[C16] err == nil && !w.latestEnvelope.trailer ==> flushed == 1
+//@   ensures[C09,C03] err == nil && w.latestEnvelope.trailer ==> w.rw.endWritten && w.err != nil
+//@   ensures err == nil && !w.latestEnvelope.trailer ==> w.err == nil && w.buffer != nil && w.buffer == w.msg.buf && blen(w.buffer) == 0 && owned(w.buffer)
+//@   ensures err == nil && !w.latestEnvelope.trailer ==> (w.rw.op.serverEnveloper != nil ==> w.expectingBytes == 5 && w.writingEnvelope) && (w.rw.op.serverEnveloper == nil ==> w.expectingBytes == -1)
+//@   ensures rwInv(w.rw)
+//@   ensures prepOK(w.rw.op) && w.msg != nil && w.w != nil
+//@   ensures sinkOK(w.w, w.rw)
+//@   ensures (w.rw.respMeta != nil || w.rw.op.serverEnveloper != nil)
+//@   ensures w.rw == old(w.rw) && (old(w.rw.endWritten) ==> w.rw.endWritten)
+//@   ensures w.latestEnvelope.trailer == old(w.latestEnvelope.trailer)
+//@   modifies w.err, w.buffer, w.expectingBytes, w.writingEnvelope, $vanguard.message., owned(w.buffer), owned(w.msg.buf), owned(w.rw.buf), blen(w.buffer), blen(w.msg.buf), blen(w.rw.buf), blen(unbox(w.w, *limitWriter).buf), #RWEND
+
+//@ func (*transformingWriter).Write
+//@   requires twInv(w)
+//@   ensures[C08] 0 <= n && n <= len(data) && (err == nil ==> n == len(data))
+//@   ensures twInv(w) && w.rw == old(w.rw) && (old(w.rw.endWritten) ==> w.rw.endWritten)
+//@   loop 1 invariant[C08] written >= 0 && written + len(data) == len(old(data))
+//@   loop 1 invariant twInv(w) && (w.err == nil ==> w.buffer != nil && w.expectingBytes != -1) && w.rw == old(w.rw) && (old(w.rw.endWritten) ==> w.rw.endWritten)
+//@   loop 1 decreases len(data), ite(w.writingEnvelope, 0, 1), ite(w.err == nil, 1, 0)
+
+// ------------------------------------------------------------------------------------------------
+// C15 / C14 / C10: compression pool
+
+//@ func (*compressionPool).compress
+//@   requires dst != nil && src != nil
+//@   requires[C14] owned(dst) && owned(src)
+//@   track gets = (*sync.Pool).Get
+//@   track puts = (*sync.Pool).Put
+//@   track resets = (connectrpc.com/connect.Compressor).Reset
+//@   ensures[C15] p != nil ==> gets == 1 && puts == 1 && resets == 1
+//@   ensures[C15] p == nil ==> gets == 0 && puts == 0
+//@   modifies blen(dst), blen(src)
+
+//@ func (*compressionPool).decompress
+//@   requires dst != nil && src != nil
+//@   requires[C14] owned(dst) && owned(src)
+//@   track gets = (*sync.Pool).Get
+//@   track puts = (*sync.Pool).Put
+//@   track resets = (connectrpc.com/connect.Decompressor).Reset
+//@   ensures[C15] p != nil ==> gets == 1 && puts == 1 && resets == 1
+//@   ensures[C15] p == nil ==> gets == 0 && puts == 0
+//@   atcall[C15] (*sync.Pool).Put: resets == 1
+//@   modifies blen(dst), blen(src)
+
+//@ func (*bufferPool).Get
+//@   requires b != nil
+//@   ensures[C15] result != nil && blen(result) == 0
+//@ func (*bufferPool).Put
+//@   requires b != nil && buffer != nil
+//@ func (*bufferPool).Wrap
+//@   requires orig != nil
+//@   ensures[C15] result != nil && blen(result) == len(data)
